@@ -67,6 +67,9 @@ func (cr *checkRun) replay(o *Obl, r SolveResult) replayResult {
 	if r.Model == nil {
 		return fail("solver returned no model")
 	}
+	if fn.Parent() != nil {
+		return fail("the function is a closure: it cannot be called on its own with the solver's inputs")
+	}
 	pkgName := fn.Pkg.Pkg.Name()
 	bl := &builder{e: enc, m: r.Model, pkg: pkgName, imports: map[string]bool{}}
 	var lits []string
